@@ -35,7 +35,10 @@ func runC18(c *Ctx) {
 	ruleSockOwned(c)
 	for _, m := range findMultiListeners(c, "CANCELPUMP") {
 		ruleCancelPump(c, m, "CANCELPUMP")
+		ruleClosedGuard(c, m) // a connection a handle has taken is returned, never dropped (leak)
 	}
+	// an unsynchronised map access is not a recoverable panic: the runtime aborts the process
+	ruleGuardedTypes(c, "RACEFREE", allSharedTypes(c), 14, 60)
 	rulePanics(c)
 }
 
